@@ -221,7 +221,20 @@ fn text_char(t: &mut Tape, ascii_only: bool) -> Vec<u8> {
 /// UNKNOWN tail text (without the leading space), never containing CR, valid UTF-8.
 pub fn gen_unknown_text(t: &mut Tape, ascii_only: bool, max: usize) -> Vec<u8> {
     let mut out = Vec::new();
-    match t.weighted(&[2, 3, 3, 2]) {
+    match t.weighted(&[2, 3, 3, 2, 3]) {
+        4 => {
+            // words of the protocol itself (the keywords again, addresses, ports), single or double spaced
+            let n = t.usize_in(1, 8);
+            for i in 0..n {
+                if i > 0 {
+                    out.push(b' ');
+                    if t.chance(1, 5) {
+                        out.push(b' ');
+                    }
+                }
+                out.extend_from_slice(t.pick(&["UNKNOWN", "PROXY", "TCP4", "TCP6", "UNKNOWN,", "1.2.3.4", "::1", "80", "0", "", "\n", "PROXY UNKNOWN", "unknown", "UNKNOWNS"]).as_bytes());
+            }
+        }
         0 => {}
         1 => {
             // looks like address fields
@@ -979,7 +992,18 @@ pub fn gen_v2_header(t: &mut Tape) -> V2Gen {
 /// Near-miss v2 inputs (G-V2MUT).
 pub fn gen_v2_mutant(t: &mut Tape) -> (Vec<u8>, &'static str) {
     let mut h = gen_v2_header(t).bytes;
-    match t.below(9) {
+    match t.below(10) {
+        9 => {
+            // cut at a length that is special for this header: the declared length itself (the sender counted the fixed
+            // part), the end of the address block, a few bytes either side of those and of the full header
+            let l = if h.len() >= 16 { ((h[14] as usize) << 8) | h[15] as usize } else { 0 };
+            let fam = if h.len() >= 14 { (h[13] >> 4) as usize & 3 } else { 0 };
+            let need = NEED[fam];
+            let base = *t.pick(&[l, l, 16 + need, 16 + l, l + need, 32usize]);
+            let cut = (base + t.usize_in(0, 2)).saturating_sub(1);
+            h.truncate(cut.min(h.len()));
+            (h, "special-truncate")
+        }
         0 => {
             let i = t.below(12) as usize;
             h[i] = t.byte();
